@@ -23,8 +23,7 @@ Open Scope Z_scope.
 (* ================================================================================================== *)
 (* 1. the frame lemma                                                                                  *)
 
-Definition quiet (w : Z) : bool :=
-  negb ((w =? w_rdc) || (w =? w_ru2) || (w =? w_ru3) || (w =? w_ru4) || (w =? w_eoc) || (w =? w_cr) || (w =? w_edm)).
+(* quiet : spec/SpecScc05Inline.v *)
 
 (* x with another display side *)
 Definition fr_set (x : rstate) (st : stash) (q : option (creator * Q)) (tm : Q) (tc : str) : rstate :=
